@@ -12,7 +12,9 @@
 (* STATE.  journal : <<day, run id>> -> Seq(entry id)  are the files       *)
 (* chronicles/YYYY/MM/DD/<run id>.json;  appended : entry id -> Nat is the *)
 (* bag of everything handed to append.  An entry id indexes the tables     *)
-(* EntAt (completion instant), EntRun (run id), EntOk (outcome).           *)
+(* EntAt (completion instant), EntRun (run id), EntSt (recorded outcome:   *)
+(* "success", "failure" or "invalid" - schedule.complete records the name  *)
+(* of State.success / failure / invalid).                                  *)
 (*                                                                         *)
 (* Two levels (DESIGN 2.1):                                                *)
 (*  - PROPERTY LEVEL: JBag/AppendOnce and the declarative FindOK           *)
@@ -23,7 +25,7 @@
 (***************************************************************************)
 EXTENDS Integers, Sequences, FiniteSets, FiniteSetsExt, TLC
 
-CONSTANTS Cal, Tod, EntAt, EntRun, EntOk, \* tables
+CONSTANTS Cal, Tod, EntAt, EntRun, EntSt, \* tables
           Cand,       \* entry ids that the model appends
           Bounds,     \* instants used as after / before
           Limits,     \* naturals used as limit
@@ -39,7 +41,8 @@ Ent  == DOMAIN EntAt
 Inst == 0 .. (ND * NT - 1)
 
 ASSUME /\ NT >= 1 /\ Tod[NT] = <<23, 59, 59>>
-       /\ DOMAIN EntRun = Ent /\ DOMAIN EntOk = Ent
+       /\ DOMAIN EntRun = Ent /\ DOMAIN EntSt = Ent
+       /\ \A e \in Ent : EntSt[e] \in {"success", "failure", "invalid"}
        /\ \A e \in Ent : EntAt[e] \in Inst
        /\ Cand \subseteq Ent /\ Bounds \subseteq Inst /\ Nows \subseteq Inst /\ Limits \subseteq Nat
        /\ \A n \in Nows, e \in Ent : EntAt[e] < n
@@ -74,20 +77,26 @@ Plus(A, e) == [A EXCEPT ![e] = @ + 1]
 (* C18.AppendOnce: nothing lost, nothing doubled, nothing invented *)
 AppendOnce(J1, J2, e) == ~Foreign(J2) /\ JBag(J2) = Plus(JBag(J1), e)
 
-InWin(e, x) == /\ EntOk[e] = x.ok
+(* the outcome a query asks for: succeeded -> exactly "success", failed -> exactly "failure";
+   an "invalid" run (NoValidInput/OutputDataError) belongs to neither answer.  The zone in which
+   a bound is written is not part of the meaning of a query: instants are instants. *)
+Want(k) == IF k THEN "success" ELSE "failure"
+InWin(e, x) == /\ EntSt[e] = Want(x.ok)
                /\ (x.after  = NONE \/ EntAt[e] > x.after)
                /\ (x.before = NONE \/ EntAt[e] < x.before)
-WCount(A, x, e) == IF InWin(e, x) THEN A[e] ELSE 0
-WSize(A, x) == MapThenSumSet(LAMBDA e : WCount(A, x, e), Ent)
+(* the window: recorded entries of the requested outcome strictly inside (after, before) *)
+Win(A, x) == { e \in Ent : A[e] > 0 /\ InWin(e, x) }
+WSize(A, x) == MapThenSumSet(LAMBDA e : A[e], Win(A, x))
 
 Known(s)       == \A i \in DOMAIN s : s[i] \in Ent
 NewestFirst(s) == \A i, j \in DOMAIN s : i < j => EntAt[s[i]] >= EntAt[s[j]]
-NoExtra(s, A, x)   == \A e \in Ent : Occ(s, e) <= WCount(A, x, e)
-NoMissing(s, A, x) == \A e \in Ent : Occ(s, e) >= WCount(A, x, e)
+NoExtra(s, A, W)   == \A i \in DOMAIN s : s[i] \in W /\ Occ(s, s[i]) <= A[s[i]]
+NoMissing(s, A, W) == \A e \in W : Occ(s, e) >= A[e]
 (* the n newest of the window; ties in completion time may be cut anywhere *)
-Newest(s, A, x, n) ==
-    /\ Len(s) = IF WSize(A, x) < n THEN WSize(A, x) ELSE n
-    /\ \A e \in Ent : Occ(s, e) < WCount(A, x, e) => \A i \in DOMAIN s : EntAt[e] <= EntAt[s[i]]
+Newest(s, A, W, n) ==
+    LET size == MapThenSumSet(LAMBDA e : A[e], W) IN
+    /\ Len(s) = IF size < n THEN size ELSE n
+    /\ \A e \in W : Occ(s, e) < A[e] => \A i \in DOMAIN s : EntAt[e] <= EntAt[s[i]]
 
 (* what the statement asks of a query, by the arguments that are given *)
 Mode(x) == IF x.after # NONE
@@ -97,10 +106,11 @@ Mode(x) == IF x.after # NONE
 (* C18.FindOK as the set of reasons why s is NOT an acceptable answer *)
 FindBad(s, A, x) ==
     IF ~Known(s) THEN {"foreign"} ELSE
+      LET W == Win(A, x) IN
       (IF NewestFirst(s) THEN {} ELSE {"order"})
-      \cup (IF NoExtra(s, A, x) THEN {} ELSE {"extra"})
-      \cup (IF Mode(x) = "all" /\ ~NoMissing(s, A, x) THEN {"missing"} ELSE {})
-      \cup (IF Mode(x) = "newest" /\ ~Newest(s, A, x, x.limit) THEN {"truncation"} ELSE {})
+      \cup (IF NoExtra(s, A, W) THEN {} ELSE {"extra"})
+      \cup (IF Mode(x) = "all" /\ ~NoMissing(s, A, W) THEN {"missing"} ELSE {})
+      \cup (IF Mode(x) = "newest" /\ ~Newest(s, A, W, x.limit) THEN {"truncation"} ELSE {})
 FindOK(s, A, x) == FindBad(s, A, x) = {}
 
 -----------------------------------------------------------------------------
@@ -147,7 +157,7 @@ Cat(J, F) == IF F = {} THEN <<>> ELSE LET g == CHOOSE h \in F : TRUE IN J[g] \o 
 (* _load: every file of the day directory, filtered by the window handed in *)
 Load(J, lo, hi, d, ok) ==
     SortNewest(SelectSeq(Cat(J, { f \in DOMAIN J : f[1] = d }),
-                         LAMBDA e : e \in Ent /\ lo < EntAt[e] /\ EntAt[e] < hi /\ EntOk[e] = ok))
+                         LAMBDA e : e \in Ent /\ lo < EntAt[e] /\ EntAt[e] < hi /\ EntSt[e] = Want(ok)))
 
 (* the loop of find.  lo is `after` (NONE = 1980-01-01, below every instant), hi the upper bound
    of the window, c the walking cursor.  Pinned tree: `before` IS the cursor, so the window
@@ -180,7 +190,10 @@ FindImpl(J, x) ==
         ELSE IF x.after # NONE THEN LastN(acc, lim)       \* `oldest`
         ELSE FirstN(acc, lim)
 
-(* fe.api.schedule.failed / succeeded hand before, limit and the outcome to find; pinned tree:
+(* find converts both bounds to UTC before it walks (the day directories are named after the UTC
+   date of completion), so the transcription works on instants and is independent of the zone the
+   bounds are written in; the zone is an input dimension of the replays on the real code.
+   fe.api.schedule.failed / succeeded hand before, limit and the outcome to find; pinned tree:
    `after` is parsed and never passed on.  When find is handed three Nones it raises: the answer
    is then <<0>> (0 is no entry id: not an answer at all). *)
 ApiArgs(x)   == [x EXCEPT !.after = IF PinnedApi THEN NONE ELSE @]
